@@ -59,18 +59,22 @@ pub fn check(c: &Case, cs: &mut CaseStats) -> Result<(), String> {
         }
         cs.count("intersect_planes", 1);
     }
-    // project_onto: lands on the plane, moves along n, idempotent. (The helper is documented
-    // for a plane given by a normal vector; it is exercised with unit normals, which is how
-    // every caller in the library uses it, and with non-unit normals for the direction only.)
+    // project_onto: lands on the plane, moves along n, idempotent - for unit normals (how the
+    // library itself uses it) and, in the odd modes, for normals of any non-zero length (a plane
+    // is "a normal vector and a point"; the implementation divides by n.n)
     let q = v3(f, 6, scale);
     {
-        let pu = Plane::new(un(&p0), p0.p);
+        let pu = Plane::new(p0.n, p0.p);
+        let nu = un(&p0);
         let y = pu.project_onto(q);
-        let r = pu.n.dot(y - pu.p).abs();
+        if !unit {
+            cs.count("project_onto_non_unit_normal", 1);
+        }
+        let r = nu.dot(y - pu.p).abs();
         if !(r <= 1e-12 * mag) {
             return Err(format!("project_onto: {:?} is {:e} off the plane", y, r));
         }
-        let along = (y - q).cross(pu.n).length();
+        let along = (y - q).cross(nu).length();
         if !(along <= 1e-12 * mag) {
             return Err(format!("project_onto: displacement {:?} is not along the normal {:?}", y - q, pu.n));
         }
@@ -82,15 +86,16 @@ pub fn check(c: &Case, cs: &mut CaseStats) -> Result<(), String> {
     }
     // project_onto_intersection: on both planes, displacement perpendicular to the line
     {
-        let (a, b) = (Plane::new(un(&p0), p0.p), Plane::new(un(&p1), p1.p));
-        let s = a.n.cross(b.n).length();
+        let (a, b) = (Plane::new(p0.n, p0.p), Plane::new(p1.n, p1.p));
+        let (an, bn) = (un(&p0), un(&p1));
+        let s = an.cross(bn).length();
         if s >= 1e-2 {
             let y = a.project_onto_intersection(&b, q);
             let tol = 1e-11 * mag / (s * s);
-            if !(a.n.dot(y - a.p).abs() <= tol && b.n.dot(y - b.p).abs() <= tol) {
-                return Err(format!("project_onto_intersection: {:?} is not on both planes ({:e}, {:e}; tol {:e})", y, a.n.dot(y - a.p), b.n.dot(y - b.p), tol));
+            if !(an.dot(y - a.p).abs() <= tol && bn.dot(y - b.p).abs() <= tol) {
+                return Err(format!("project_onto_intersection: {:?} is not on both planes ({:e}, {:e}; tol {:e})", y, an.dot(y - a.p), bn.dot(y - b.p), tol));
             }
-            let line = a.n.cross(b.n).normalize();
+            let line = an.cross(bn).normalize();
             if !((y - q).dot(line).abs() <= tol) {
                 return Err(format!("project_onto_intersection: displacement {:?} has a component {:e} along the line", y - q, (y - q).dot(line)));
             }
@@ -232,7 +237,7 @@ pub fn def() -> PropDef {
         check,
         cases: |t| t.pick(40_000, 5_000_000),
         profiles: &["release"],
-        required: &["intersect_planes", "project_onto_intersection", "signed_measures", "sphere3", "sphere4", "extend_outside", "extend_contained"],
+        required: &["intersect_planes", "project_onto_non_unit_normal", "project_onto_intersection", "signed_measures", "sphere3", "sphere4", "extend_outside", "extend_contained"],
         fixed: None,
         assumptions: &["non-degenerate arguments as quantified by the property (thresholds above)"],
     }
